@@ -71,15 +71,92 @@ theorem foldr_post_hijacked (outer : List LayerCfg) (r : Result) (hh : r.hijacke
   | nil => rfl
   | cons l ls ih => simp [ih, post, hh]
 
+/-- 1xx calls still arriving at the outside of `outer`: a buffer swallows them -/
+def infosThrough : List LayerCfg → List Nat → List Nat
+  | [], i => i
+  | l :: ls, i => if l.kind = Kind.buffer then [] else infosThrough ls i
+
+/-- is the final `WriteHeader` explicit at the outside of `outer`: a buffer always issues one -/
+def explicitThrough : List LayerCfg → Bool → Bool
+  | [], e => e
+  | l :: ls, e => if l.kind = Kind.buffer then true else explicitThrough ls e
+
+theorem infosThrough_buffer (l : LayerCfg) (ls : List LayerCfg) (i : List Nat) (hk : l.kind = Kind.buffer) :
+    infosThrough (l :: ls) i = [] := by rw [infosThrough, if_pos hk]
+theorem infosThrough_other (l : LayerCfg) (ls : List LayerCfg) (i : List Nat) (hk : ¬ l.kind = Kind.buffer) :
+    infosThrough (l :: ls) i = infosThrough ls i := by rw [infosThrough, if_neg hk]
+theorem explicitThrough_buffer (l : LayerCfg) (ls : List LayerCfg) (e : Bool) (hk : l.kind = Kind.buffer) :
+    explicitThrough (l :: ls) e = true := by rw [explicitThrough, if_pos hk]
+theorem explicitThrough_other (l : LayerCfg) (ls : List LayerCfg) (e : Bool) (hk : ¬ l.kind = Kind.buffer) :
+    explicitThrough (l :: ls) e = explicitThrough ls e := by rw [explicitThrough, if_neg hk]
+
+theorem infosThrough_nil' (outer : List LayerCfg) : infosThrough outer [] = [] := by
+  induction outer with
+  | nil => rfl
+  | cons l ls ih =>
+    by_cases hk : l.kind = Kind.buffer
+    · exact infosThrough_buffer l ls [] hk
+    · rw [infosThrough_other l ls [] hk, ih]
+
+theorem explicitThrough_true (outer : List LayerCfg) : explicitThrough outer true = true := by
+  induction outer with
+  | nil => rfl
+  | cons l ls ih =>
+    by_cases hk : l.kind = Kind.buffer
+    · exact explicitThrough_buffer l ls true hk
+    · rw [explicitThrough_other l ls true hk, ih]
+
+theorem infosThrough_noBuffer (outer : List LayerCfg) (i : List Nat) (hb : ¬ hasBuffer outer) : infosThrough outer i = i := by
+  induction outer with
+  | nil => rfl
+  | cons l ls ih =>
+    have h1 : ¬ l.kind = Kind.buffer := fun e => hb ⟨l, by simp, e⟩
+    have h2 : ¬ hasBuffer ls := fun ⟨x, hx, e⟩ => hb ⟨x, by simp [hx], e⟩
+    rw [infosThrough_other l ls i h1, ih h2]
+
+theorem explicitThrough_noBuffer (outer : List LayerCfg) (e : Bool) (hb : ¬ hasBuffer outer) : explicitThrough outer e = e := by
+  induction outer with
+  | nil => rfl
+  | cons l ls ih =>
+    have h1 : ¬ l.kind = Kind.buffer := fun e => hb ⟨l, by simp, e⟩
+    have h2 : ¬ hasBuffer ls := fun ⟨x, hx, e⟩ => hb ⟨x, by simp [hx], e⟩
+    rw [explicitThrough_other l ls e h1, ih h2]
+
+/-- A response that is not hijacked and fits every buffer is relayed outward unchanged apart from the cookies — provided the
+buffers see a final `WriteHeader`, or no 1xx at all (or there is no buffer). -/
 theorem foldr_post_plain (outer : List LayerCfg) (r : Result) (hh : r.hijacked = false)
-    (ho : ∀ l ∈ outer, overflows l r.resp.body.length = false) :
-    outer.foldr post r = { r with resp := decorate outer r.resp } := by
+    (ho : ∀ l ∈ outer, overflows l r.resp.body.length = false)
+    (hd : r.explicit = true ∨ r.infos = [] ∨ ¬ hasBuffer outer) :
+    outer.foldr post r = { r with resp := decorate outer r.resp, infos := infosThrough outer r.infos,
+                                  explicit := explicitThrough outer r.explicit } := by
   induction outer with
   | nil => rfl
   | cons l ls ih =>
     have h1 : overflows l r.resp.body.length = false := ho l (by simp)
     have h2 : ∀ x ∈ ls, overflows x r.resp.body.length = false := fun x hx => ho x (by simp [hx])
-    simp [ih h2, post, hh, decorate_body, h1]
+    have hd' : r.explicit = true ∨ r.infos = [] ∨ ¬ hasBuffer ls := by
+      rcases hd with h | h | h
+      · exact Or.inl h
+      · exact Or.inr (Or.inl h)
+      · exact Or.inr (Or.inr (fun ⟨x, hx, e⟩ => h ⟨x, by simp [hx], e⟩))
+    rw [List.foldr_cons, ih h2 hd']
+    by_cases hk : l.kind = Kind.buffer
+    · -- a buffer: it must see an explicit final status or no 1xx
+      have hcase : explicitThrough ls r.explicit = true ∨ (explicitThrough ls r.explicit = false ∧ infosThrough ls r.infos = []) := by
+        rcases hd with h | h | h
+        · left; rw [h]; exact explicitThrough_true ls
+        · cases he : explicitThrough ls r.explicit
+          · right; exact ⟨rfl, by rw [h]; exact infosThrough_nil' ls⟩
+          · left; rfl
+        · exact absurd ⟨l, by simp, hk⟩ h
+      rw [infosThrough_buffer l ls _ hk, explicitThrough_buffer l ls _ hk]
+      rcases hcase with he | ⟨he, hi⟩
+      · simp [post, hh, decorate_body, h1, relayHeaderCalls, hk, he]
+      · simp [post, hh, decorate_body, h1, relayHeaderCalls, hk, he, hi]
+    · have : relayHeaderCalls l = id := by
+        funext x; unfold relayHeaderCalls; cases hkk : l.kind <;> simp_all
+      rw [infosThrough_other l ls _ hk, explicitThrough_other l ls _ hk]
+      simp [post, hh, decorate_body, h1, this]
 
 /-- the first intervening layer splits the stack -/
 theorem exists_outermost (stack : List LayerCfg) (req : Req) (hex : ∃ l ∈ stack, intervenes l req = true) :
